@@ -1,3 +1,4 @@
+import F3.Proofs.SkelTiePower
 import F3.Gen.Core
 import F3.Model.Power
 import F3.Spec.Quorum
@@ -348,4 +349,20 @@ example : F3.Spec.Quorum.couldReach false 30 25 5 = false ∧ F3.Spec.Quorum.cou
 
 end Bridges
 
+end F3.Props.C08
+
+namespace F3.Props.C08
+section Skeletons
+
+/-- **The Go functions this property's models mirror still have the statement structure the models were written
+against**: each regenerated skeleton (pre-order list of statement kinds, `tools/go2lean/skel.go`) equals the pinned
+expectation of `F3/Proofs/SkelTie*.lean`. An added early return, cap, loop or dropped branch in one of these functions
+breaks this obligation even when no regenerated *expression* changes. -/
+theorem code_structure_as_modelled :
+    F3.Gen.SkelPower.skelScalePower = F3.SkelTie.SkelPower.skelScalePowerExpected ∧
+    F3.Gen.SkelPower.skelPowerTableCopy = F3.SkelTie.SkelPower.skelPowerTableCopyExpected ∧
+    F3.Gen.SkelPower.skelRescale = F3.SkelTie.SkelPower.skelRescaleExpected :=
+  ⟨F3.SkelTie.SkelPower.skelScalePower_expected, F3.SkelTie.SkelPower.skelPowerTableCopy_expected, F3.SkelTie.SkelPower.skelRescale_expected⟩
+
+end Skeletons
 end F3.Props.C08
